@@ -29,8 +29,8 @@ RULE = (
 ASSUMPTIONS = ["the 'shutdown' request is a feature of the protocol, not abuse, and is not sent", "fake processes in the virtual lane"]
 
 
-QUICK_BUDGET = {"cases": 4000, "deadline_s": 170, "case_timeout_s": 120, "floors": {"accepted_tasks": 8309, "abusive_lines": 15000, "healthy_responses": 8721, "liveness_probes": 1400, "real_tasks": 20}}
-THOROUGH_FACTOR = 50  # thorough = the same workload with 50x the cases (floors scale along)
+QUICK_BUDGET = {"cases": 16000, "deadline_s": 170, "case_timeout_s": 120, "floors": {"accepted_tasks": 33236, "abusive_lines": 60000, "healthy_responses": 34884, "liveness_probes": 5600, "real_tasks": 20}}
+THOROUGH_FACTOR = 12  # thorough = the same workload with 12x the cases (floors scale along)
 
 
 def budget(tier):
